@@ -1,1 +1,6 @@
+import TTProps.C01
 import TTProps.C03
+import TTProps.C04
+import TTProps.C07
+import TTProps.C17
+import TTProps.C20
